@@ -336,6 +336,50 @@ def run(ctx) -> None:
                "the staging destination %s is not confined to <working directory>/<basename>: a crafted reference path can "
                "place data outside the component's working directory" % short(call.args[1], 60))
 
+    # R2b: a content copy follows a link that already sits at its destination (an earlier ':link' reference with the same
+    # file name): the file that will be written is tested not to be a link, and the copy is not reached when it is one
+    WRITE_THROUGH = ("shutil.copy", "shutil.copy2", "shutil.copyfile")
+
+    def staged_file_of(x: ast.AST, call: ast.Call, dd: int = 0) -> bool:
+        """x is the path the copy writes: the destination itself when that is <dir>/<basename>, else join(<destination>, <basename>)"""
+        dst = call.args[1]
+        if source.src(x) == source.src(dst):
+            # the destination argument is the written file only when it cannot be the bare working directory
+            bare = source.src(dst) == "location.path" or (isinstance(dst, ast.Name) and any(source.src(v) == "location.path" for v in local_defs(sr, dst.id)))
+            if call_name(call) == "shutil.copyfile" or not bare:
+                return True
+            return False
+        if isinstance(x, ast.Name) and dd < 3:
+            dfs = local_defs(sr, x.id)
+            return bool(dfs) and all(staged_file_of(y, call, dd + 1) for y in dfs)
+        if isinstance(x, ast.Call) and call_name(x) == "os.path.join" and len(x.args) == 2:
+            return (source.src(x.args[0]) == source.src(dst) or dest_ok(x.args[0])) and is_basename(x.args[1])
+        return False
+    n2b = 0
+    for sn in sinks:
+        for call in [c for c in own_calls(sn.ast) if call_name(c) in WRITE_THROUGH and len(c.args) >= 2]:
+            n2b += 1
+
+            def link_label(t: ast.AST) -> Optional[str]:
+                flip = False
+                while isinstance(t, ast.UnaryOp) and isinstance(t.op, ast.Not):
+                    t, flip = t.operand, not flip
+                lab = match.polarity(t, lambda e: isinstance(e, ast.Call) and call_name(e) in ("os.path.islink", "os.path.lexists")
+                                     and e.args and staged_file_of(e.args[0], call))
+                if lab is None:
+                    return None
+                return match.other(lab) if flip else lab
+            edges = match.test_nodes(cfg, link_label)
+            # the copy may only be reached on the side where the staged path is NOT a link
+            ok = bool(edges) and match.only_via_edges(cfg, sn, [(n, match.other(lab)) for (n, lab) in edges])
+            ctx.ob("C18.R2-basename-destinations", call, ok,
+                   "the file the copy writes is tested with islink() and the copy is only reached when it is not a link" if ok else
+                   "%s follows a symbolic link that already sits at the destination: ':link' then ':copy' of two references with the same "
+                   "file name writes the copied contents through the link into the producer's file, outside the working directory; no "
+                   "islink()/lexists() test of the staged path guards the copy" % call_name(call),
+                   construct="%s <- destination is not a link" % call_name(call))
+    ctx.floor("C18.R2-basename-destinations", n2b, 1, "content copies in StageReference that follow destination links")
+
     # ---------------- R3 -------------------------------------------------------------------------------
     st = ctx.repo.module(STORAGE)
     ep = st.func("ExperimentPackage.expandPackageToDirectory")
@@ -394,30 +438,45 @@ def run(ctx) -> None:
             dst = c.args[1] if call_name(c) != "open" and len(c.args) > 1 else (c.args[0] if c.args else None)
             if dst is None:
                 continue
-            # the directory: a local defined as os.path.join(<target>, '<constant folder>')
-            dirs = [x.id for x in ast.walk(dst) if isinstance(x, ast.Name) and any(
-                isinstance(v, ast.Call) and call_name(v) == "os.path.join" and len(v.args) == 2 and isinstance(v.args[1], ast.Constant)
-                for v in local_defs(ep, x.id))]
-            if not dirs:
+            if call_name(c) == "open" and not any(isinstance(a, ast.Constant) and isinstance(a.value, str) and any(ch in a.value for ch in "wax+")
+                                                  for a in c.args[1:] + [k.value for k in c.keywords if k.arg == "mode"]):
                 continue
-            dname = dirs[0]
+            # the file that is written, and the directories it is joined from: X = os.path.join(<dir>, ...)
+            file_names = [x.id for x in ast.walk(dst) if isinstance(x, ast.Name)] if not isinstance(dst, ast.Name) else [dst.id]
+            dir_names: List[str] = []
+            todo = list(file_names) + [x.id for x in ast.walk(dst) if isinstance(x, ast.Name)]
+            seen_n: Set[str] = set()
+            while todo:
+                nm = todo.pop()
+                if nm in seen_n:
+                    continue
+                seen_n.add(nm)
+                for v in local_defs(ep, nm):
+                    if isinstance(v, ast.Call) and call_name(v) == "os.path.join" and v.args and isinstance(v.args[0], ast.Name):
+                        dir_names.append(v.args[0].id)
+                        todo.append(v.args[0].id)
+            under_instance = any(isinstance(v, ast.Call) and call_name(v) == "os.path.join" and v.args and "targetPath" in source.src(v.args[0])
+                                 for nm in seen_n for v in local_defs(ep, nm))
+            if not under_instance:
+                continue
             n6 += 1
-            made = [n for n in c2.nodes if n.kind == "stmt" and n.ast is not None and any(
-                call_name(k) in ("os.makedirs", "os.mkdir") and k.args and isinstance(k.args[0], ast.Name) and k.args[0].id == dname
+            fresh = [n for n in c2.nodes if n.kind == "stmt" and n.ast is not None and any(
+                call_name(k) in ("os.makedirs", "os.mkdir") and k.args and isinstance(k.args[0], ast.Name) and k.args[0].id in dir_names
                 and not any(kw.arg == "exist_ok" and not (isinstance(kw.value, ast.Constant) and kw.value.value is False) for kw in k.keywords)
                 for k in own_calls(n.ast))]
-            dpred = lambda n_, dname=dname: isinstance(n_, ast.Name) and n_.id == dname
-            conts = [t for t in live(c2, containment_tests(ep)) if mentions_source(ep, t.call, dpred) and containment_quality(ep, t, dpred)[0]]
+            # a containment test of the FILE itself (a test of its directory does not see a link placed at the file's own path)
+            fpred = lambda n_, names=tuple(file_names): isinstance(n_, ast.Name) and n_.id in names
+            conts = [t for t in live(c2, containment_tests(ep)) if mentions_source(ep, t.call, fpred) and containment_quality(ep, t, fpred)[0]
+                     and any(isinstance(x, ast.Name) and x.id in file_names for x in ast.walk(t.call))]
             tnodes = [n for n in c2.nodes if n.kind == "test" and any(n.ast is t.compare for t in conts)]
-            ok = c2.every_path_to_passes(wn, gates=made + tnodes)
+            ok = c2.every_path_to_passes(wn, gates=fresh + tnodes)
+            what = short(dst, 40)
             ctx.ob("C18.R6-writes-after-the-manifest", c, ok,
-                   "'%s' is created by this deployment or tested to be beneath the instance directory before the file is written" % dname if ok else
-                   "%s writes into '%s' after the manifest was applied, on a path where that folder was neither created by this "
-                   "deployment nor tested (realpath) to be beneath the instance directory: a manifest entry '%s: <dir>:link' makes it "
-                   "a link, and the file is created in (or overwrites a file of) <dir>" % (
-                       call_name(c), dname, next((v.args[1].value for v in local_defs(ep, dname) if isinstance(v, ast.Call)
-                                                  and len(v.args) == 2 and isinstance(v.args[1], ast.Constant)), "conf")),
-                   construct="%s into %s <- created here or contained" % (call_name(c), dname))
+                   "%s is written into a folder created by this deployment, or its own real path was tested to be beneath the instance directory" % what if ok else
+                   "%s writes %s after the manifest was applied, on a path where neither its folder was created by this deployment nor the real "
+                   "path of the file itself was tested to be beneath the instance directory: the manifest can make the folder ('conf: <dir>:link') "
+                   "or the file itself ('conf/flowir_package.yaml: <file>:link') a link, and the write lands outside" % (call_name(c), what),
+                   construct="%s -> %s <- created here or contained" % (call_name(c), what))
     ctx.floor("C18.R6-writes-after-the-manifest", n6, 1, "file writes after the manifest loop of expandPackageToDirectory")
 
     # ---------------- R4 -------------------------------------------------------------------------------
